@@ -140,6 +140,7 @@ def load_celpy() -> None:
     # celpy logs through logger.error() inside Transpiler.evaluate; a logging handler lock held
     # across a yield point would be a lock the scheduler does not model.
     logging.disable(logging.CRITICAL)
+    _patch_lark()
     _celpy_loaded = True
     # the static hotness analysis (sim/hotness.py) looks at module- and class-level state: it has to
     # see the *pristine* state (e.g. CELParser.CEL_PARSER still None), or its verdicts -- and with
@@ -148,6 +149,99 @@ def load_celpy() -> None:
     from . import hotness
 
     HOTNESS = hotness.Hotness()
+
+
+# ---- fast construction of identical Lark parsers ------------------------------------------------
+# Every pristine run builds one or two Lark parsers (LALR table construction: ~90 ms each, >90 % of
+# the cost of a C16 / C05 run).  lark itself can save a constructed parser and load it again
+# (Lark.save / Lark._load, the mechanism behind its cache= option); loading takes ~7 ms and yields a
+# parser that produces identical trees (checked by the self-test against the real constructor).
+# The simulator uses that for *construction only*: the first Lark(...) with a given grammar and
+# options in a process runs the real constructor, later ones load its serialisation with the
+# caller's own tree_class and lexer callbacks.  FAST_LARK = False (VERIF_REAL_LARK=1, and a seeded
+# share of runs) uses the real constructor throughout.
+FAST_LARK = os.environ.get("VERIF_REAL_LARK") != "1"
+_LARK_BLOBS: Dict[str, Any] = {}
+_lark_patched = False
+LARK_STATS = {"built": 0, "loaded": 0}
+
+
+def _lark_load(self: Any, blob: bytes, names: Dict[str, Any], kwargs: Dict[str, Any]) -> None:
+    """Lark._load (lark 1.3.1) with one extra step: rule names get their Token type back before
+    the tree builder is created, so that the loaded parser is indistinguishable from a built one."""
+    import pickle
+
+    from lark import Token
+    from lark.grammar import Rule
+    from lark.lark import (_LOAD_ALLOWED_OPTIONS, ConfigurationError, LarkOptions,
+                           _deserialize_parsing_frontend, _validate_frontend_args)
+    from lark.lexer import TerminalDef
+    from lark.load_grammar import Grammar
+    from lark.utils import SerializeMemoizer
+
+    d = pickle.loads(blob)
+    memo = SerializeMemoizer.deserialize(d["memo"], {"Rule": Rule, "TerminalDef": TerminalDef}, {})
+    data = d["data"]
+    if "grammar" in data:
+        self.grammar = Grammar.deserialize(data["grammar"], memo)
+    options = dict(data["options"])
+    if (set(kwargs) - _LOAD_ALLOWED_OPTIONS) & set(LarkOptions._defaults):
+        raise ConfigurationError("option not allowed when loading a parser")
+    options.update(kwargs)
+    self.options = LarkOptions.deserialize(options, memo)
+    self.rules = [Rule.deserialize(r, memo) for r in data["rules"]]
+    for r in self.rules:
+        ty = names.get(str(r.origin.name))
+        if ty is not None and not isinstance(r.origin.name, Token):
+            r.origin.name = Token(ty, str(r.origin.name))
+    self.source_path = "<deserialized>"
+    _validate_frontend_args(self.options.parser, self.options.lexer)
+    self.lexer_conf = self._deserialize_lexer_conf(data["parser"], memo, self.options)
+    self.terminals = self.lexer_conf.terminals
+    self._prepare_callbacks()
+    self._terminals_dict = {t.name: t for t in self.terminals}
+    self.parser = _deserialize_parsing_frontend(data["parser"], memo, self.lexer_conf,
+                                                self._callbacks, self.options)
+
+
+def _patch_lark() -> None:
+    global _lark_patched
+    if _lark_patched:
+        return
+    import io
+
+    import lark
+
+    real_init = lark.Lark.__init__
+    passthrough = ("tree_class", "lexer_callbacks", "g_regex_flags", "debug", "propagate_positions")
+
+    def init(self: Any, grammar: Any, **options: Any) -> None:
+        if not FAST_LARK or not isinstance(grammar, str) or options.get("cache"):
+            LARK_STATS["built"] += 1
+            return real_init(self, grammar, **options)
+        try:
+            key = digest([grammar, sorted((k, repr(v)) for k, v in options.items()
+                                          if k not in ("tree_class", "lexer_callbacks"))])
+        except Exception:  # noqa: BLE001
+            LARK_STATS["built"] += 1
+            return real_init(self, grammar, **options)
+        ent = _LARK_BLOBS.get(key)
+        if ent is None:
+            real_init(self, grammar, **options)
+            LARK_STATS["built"] += 1
+            buf = io.BytesIO()
+            self.save(buf)
+            # lark serialises rule names with str(); a constructed parser has Token('RULE', name)
+            # there (it ends up as Tree.data and in celpy's error texts): remember the token types
+            names = {str(r.origin.name): getattr(r.origin.name, "type", None) for r in self.rules}
+            _LARK_BLOBS[key] = (buf.getvalue(), names)
+            return None
+        LARK_STATS["loaded"] += 1
+        _lark_load(self, ent[0], ent[1], {k: options[k] for k in passthrough if k in options})
+        return None
+
+    lark.Lark.__init__ = init  # type: ignore[method-assign]
+    _lark_patched = True
 
 
 def fresh_celpy() -> Any:
@@ -346,6 +440,11 @@ def outcome(fn: Callable[[], Any], value: bool = True) -> Tuple[List[Any], Any]:
             text = err_text(ex)
         except RecursionError:
             text = "<unprintable>"
+        if isinstance(ex, RecursionError) or (isinstance(ex, RuntimeError) and "recursion" in text.lower()):
+            # where exactly the interpreter's stack runs out (and in which wrapping the error
+            # surfaces) depends on a few frames more or less, including the simulator's own:
+            # all of it is one outcome
+            return ["exception", "RecursionError", ""], ex
         return [kind, type(ex).__name__, text], ex
     if not value:
         return ["value"], v
